@@ -8,6 +8,7 @@ CONSTANTS
   Prots <- ProtsDefault
   FixDelete = TRUE
   FixPatch = TRUE
+  CacheTrunc = TRUE
 INVARIANT TypeOK
 INVARIANT Confined
 INVARIANT UnsafeRefused
